@@ -64,6 +64,17 @@ func usesOfGlobal(f *ssa.Function, collect func(g *ssa.Global, u globalUse)) {
 				if x.Op == token.MUL {
 					if g := rootGlobal(x.X); g != nil {
 						collect(g, globalUse{f, x.Pos(), "read"})
+						// a loaded slice / map / pointer (or a struct carrying one) still refers to the
+						// variable's storage: what is done with the reference decides whether the
+						// contents can change
+						if carriesRef(x.Type()) {
+							if how, pos := refMutation(x, 0, map[ssa.Value]bool{}); how != "" {
+								if !pos.IsValid() {
+									pos = x.Pos()
+								}
+								collect(g, globalUse{f, pos, "escape:ref:" + how})
+							}
+						}
 					}
 				}
 			case *ssa.MapUpdate:
@@ -426,4 +437,314 @@ func mustDeref(f *ssa.Function, idx int, depth int) bool {
 		}
 	}
 	return false
+}
+
+// ---------------------------------------------------------------- history independence
+// pureState: the functions reachable from the entries compute from their arguments
+// (and from the package-level variables named in allow, each with its one permitted
+// writer) only: no other package-level variable of the repository that is written,
+// or whose address escapes, outside package initialisation is touched by them. A
+// cache, pool, skeleton or scratch buffer at package level makes the result of a
+// call depend on the calls made before it, which is what the properties that
+// quantify over "every input" (and not over "every input given this history") exclude.
+func pureState(c *core.Ctx, R, what string, entries []*ssa.Function, allow map[string]string) {
+	c.Rule(R, what+": no package-level cache, pool, skeleton or scratch state (results depend on the arguments only)")
+	reach := c.P.Reachable(entries...)
+	type info struct {
+		g       *ssa.Global
+		readers map[string]bool
+		writers map[string]token.Pos
+	}
+	infos := map[*ssa.Global]*info{}
+	nReach := 0
+	for f := range reach {
+		if f.Pkg == nil || !core.IsRepoPath(fnPkgPath(f)) || isInitFunc(f) {
+			continue
+		}
+		nReach++
+		usesOfGlobal(f, func(g *ssa.Global, u globalUse) {
+			if g.Pkg == nil || !core.IsRepoPath(g.Pkg.Pkg.Path()) {
+				return
+			}
+			if infos[g] == nil {
+				infos[g] = &info{g: g, readers: map[string]bool{}, writers: map[string]token.Pos{}}
+			}
+			infos[g].readers[shortName(core.FuncName(f))] = true
+		})
+	}
+	for _, pk := range c.P.RepoPackages() {
+		sp := c.P.SSAPkg(pk.PkgPath)
+		if sp == nil {
+			continue
+		}
+		for _, f := range allFuncsOf(sp) {
+			if isInitFunc(f) {
+				continue
+			}
+			usesOfGlobal(f, func(g *ssa.Global, u globalUse) {
+				if infos[g] == nil || u.kind == "read" {
+					return
+				}
+				infos[g].writers[shortName(core.FuncName(f))+":"+u.kind] = u.pos
+			})
+		}
+	}
+	var gs []*info
+	for _, i := range infos {
+		gs = append(gs, i)
+	}
+	sort.Slice(gs, func(i, j int) bool { return gs[i].g.Pkg.Pkg.Path()+"."+gs[i].g.Name() < gs[j].g.Pkg.Pkg.Path()+"."+gs[j].g.Name() })
+	for _, i := range gs {
+		name := shortName(i.g.Pkg.Pkg.Path() + "." + i.g.Name())
+		key := "global:" + name
+		elem := i.g.Type().(*types.Pointer).Elem()
+		var ws []string
+		pos := i.g.Pos()
+		for w, p := range i.writers {
+			ws = append(ws, w)
+			pos = p
+		}
+		sort.Strings(ws)
+		var rs []string
+		for r := range i.readers {
+			rs = append(rs, r)
+		}
+		sort.Strings(rs)
+		if len(rs) > 4 {
+			rs = append(rs[:4], fmt.Sprintf("… %d more", len(rs)-4))
+		}
+		okKind, kind := trustedImmutableKind(elem)
+		if w, allowed := allow[name]; allowed {
+			bad := ""
+			for _, x := range ws {
+				// the documented variable is read by design (its value is copied into messages);
+				// only stores to it and hand-outs of its address count
+				if !strings.HasPrefix(x, w+":") && !strings.Contains(x, ":escape:ref:") {
+					bad = x
+				}
+			}
+			c.Check(bad == "", R, key, pos, "documented state, written only by "+w, "%s may be written by %s only; it is also written by %s", name, w, bad)
+			continue
+		}
+		switch {
+		case len(ws) > 0:
+			c.Fail(R, key, pos, "package-level %s (%s) is written or handed out by %v and used by %v: the result of %s depends on earlier calls, not on the arguments alone", name, elem.String(), ws, rs, what)
+		case !okKind:
+			c.Fail(R, key, pos, "package-level %s has type %s, whose contents can be changed through the loaded value; it is used by %v", name, elem.String(), rs)
+		default:
+			c.Ok(R, key, i.g.Pos(), fmt.Sprintf("immutable after init (%s)", kind))
+		}
+	}
+	if nReach < len(entries) {
+		c.Undecided("%s: only %d repository functions reachable from %d entry points — call graph vacuous", R, nReach, len(entries))
+	}
+	c.Ok(R, "reachable-functions", token.NoPos, fmt.Sprintf("%d repository functions reachable from %d entry points; %d package-level variables touched", nReach, len(entries), len(gs)))
+}
+
+// exportedFuncs returns the package-level functions and methods of a package whose
+// name satisfies keep.
+func exportedFuncs(c *core.Ctx, pkg string, keep func(string) bool) []*ssa.Function {
+	sp := c.P.SSAPkg(pkg)
+	if sp == nil {
+		c.Undecided("package %s not loaded", pkg)
+	}
+	var out []*ssa.Function
+	for _, f := range allFuncsOf(sp) {
+		if f.Parent() == nil && !isInitFunc(f) && keep(f.Name()) && len(f.Blocks) > 0 {
+			out = append(out, f)
+		}
+	}
+	sort.Slice(out, func(i, j int) bool { return core.FuncName(out[i]) < core.FuncName(out[j]) })
+	return out
+}
+
+// carriesRef: values of this type share storage with where they were loaded from
+// (slices, maps, pointers, or aggregates containing them), trusted handles excepted.
+func carriesRef(t types.Type) bool {
+	if ok, _ := trustedHandle(t); ok {
+		return false
+	}
+	switch u := t.Underlying().(type) {
+	case *types.Slice, *types.Map, *types.Pointer, *types.Chan:
+		return true
+	case *types.Struct:
+		for i := 0; i < u.NumFields(); i++ {
+			if carriesRef(u.Field(i).Type()) {
+				return true
+			}
+		}
+	case *types.Array:
+		return carriesRef(u.Elem())
+	}
+	return false
+}
+
+func trustedHandle(t types.Type) (bool, string) {
+	if p, ok := t.(*types.Pointer); ok {
+		if n, ok := p.Elem().(*types.Named); ok && n.Obj().Pkg() != nil && n.Obj().Pkg().Path() == "github.com/sirupsen/logrus" {
+			return true, "logrus handle (internally locked)"
+		}
+	}
+	if n, ok := t.(*types.Named); ok && n.Obj().Pkg() != nil && n.Obj().Pkg().Path() == "reflect" && n.Obj().Name() == "Type" {
+		return true, "reflect.Type descriptor"
+	}
+	return false, ""
+}
+
+// refMutation follows a reference loaded from a package-level variable and reports
+// the first use through which the shared contents can be written or the reference
+// can leave the function ("" when every use only reads).
+func refMutation(v ssa.Value, depth int, seen map[ssa.Value]bool) (string, token.Pos) {
+	if seen[v] || depth > 8 {
+		return "", token.NoPos
+	}
+	seen[v] = true
+	addrUses := func(addr ssa.Value) (string, token.Pos) {
+		for _, r := range core.Referrers(addr) {
+			switch y := r.(type) {
+			case *ssa.Store:
+				if y.Addr == addr {
+					return "element written through the loaded reference", y.Pos()
+				}
+				return "address of shared element stored", y.Pos()
+			case *ssa.UnOp:
+				if y.Op == token.MUL && carriesRef(y.Type()) {
+					if how, p := refMutation(y, depth+1, seen); how != "" {
+						return how, p
+					}
+				}
+			case *ssa.FieldAddr, *ssa.IndexAddr:
+				// nested addressing: treat like the address itself
+				if how, p := refMutationAddr(r.(ssa.Value), depth+1, seen); how != "" {
+					return how, p
+				}
+			case *ssa.DebugRef:
+			case ssa.CallInstruction:
+				return "address of shared element handed to " + shortName(core.CalleeName(y.Common())), y.Pos()
+			default:
+				return "address of shared element escapes", r.Pos()
+			}
+		}
+		return "", token.NoPos
+	}
+	for _, r := range core.Referrers(v) {
+		switch y := r.(type) {
+		case *ssa.DebugRef:
+		case *ssa.Field:
+			if carriesRef(y.Type()) {
+				if how, p := refMutation(y, depth+1, seen); how != "" {
+					return how, p
+				}
+			}
+		case *ssa.Index:
+			if carriesRef(y.Type()) {
+				if how, p := refMutation(y, depth+1, seen); how != "" {
+					return how, p
+				}
+			}
+		case *ssa.IndexAddr:
+			if y.X == v {
+				if how, p := addrUses(y); how != "" {
+					return how, p
+				}
+			}
+		case *ssa.FieldAddr:
+			if y.X == v {
+				if how, p := addrUses(y); how != "" {
+					return how, p
+				}
+			}
+		case *ssa.Slice:
+			if how, p := refMutation(y, depth+1, seen); how != "" {
+				return how, p
+			}
+		case *ssa.Lookup:
+			if y.X == v && carriesRef(y.Type()) {
+				if how, p := refMutation(y, depth+1, seen); how != "" {
+					return how, p
+				}
+			}
+		case *ssa.MapUpdate:
+			if y.Map == v {
+				return "map written through the loaded reference", y.Pos()
+			}
+		case *ssa.Range, *ssa.BinOp, *ssa.If:
+		case *ssa.UnOp:
+			if y.Op == token.MUL && carriesRef(y.Type()) {
+				if how, p := refMutation(y, depth+1, seen); how != "" {
+					return how, p
+				}
+			}
+		case *ssa.ChangeType, *ssa.Convert, *ssa.Phi, *ssa.TypeAssert, *ssa.Extract:
+			if how, p := refMutation(r.(ssa.Value), depth+1, seen); how != "" {
+				return how, p
+			}
+		case *ssa.Store:
+			if y.Val == v {
+				return "loaded reference copied into another object", y.Pos()
+			}
+		case *ssa.MakeInterface:
+			if ok, _ := trustedHandle(v.Type()); !ok {
+				return "loaded reference boxed into an interface", y.Pos()
+			}
+		case *ssa.Return:
+			return "loaded reference returned", y.Pos()
+		case ssa.CallInstruction:
+			name := core.CalleeName(y.Common())
+			args := y.Common().Args
+			switch name {
+			case "builtin.len", "builtin.cap":
+				continue
+			case "builtin.copy":
+				if len(args) == 2 && args[1] == v && args[0] != v {
+					continue
+				}
+				return "copy into the shared storage", y.Pos()
+			case "builtin.append":
+				if len(args) == 2 && args[1] == v && args[0] != v {
+					continue
+				}
+				return "append to the shared slice", y.Pos()
+			}
+			if strings.HasPrefix(name, "reflect.") || strings.HasPrefix(name, "fmt.") || strings.HasPrefix(name, "bytes.Equal") || strings.HasPrefix(name, "strings.") {
+				continue // read-only library calls
+			}
+			return "loaded reference handed to " + shortName(name), y.Pos()
+		default:
+			return fmt.Sprintf("loaded reference used by %T", r), r.Pos()
+		}
+	}
+	return "", token.NoPos
+}
+
+func refMutationAddr(addr ssa.Value, depth int, seen map[ssa.Value]bool) (string, token.Pos) {
+	if seen[addr] || depth > 8 {
+		return "", token.NoPos
+	}
+	seen[addr] = true
+	for _, r := range core.Referrers(addr) {
+		switch y := r.(type) {
+		case *ssa.Store:
+			if y.Addr == addr {
+				return "element written through the loaded reference", y.Pos()
+			}
+			return "address of shared element stored", y.Pos()
+		case *ssa.UnOp:
+			if y.Op == token.MUL && carriesRef(y.Type()) {
+				if how, p := refMutation(y, depth+1, seen); how != "" {
+					return how, p
+				}
+			}
+		case *ssa.FieldAddr, *ssa.IndexAddr:
+			if how, p := refMutationAddr(r.(ssa.Value), depth+1, seen); how != "" {
+				return how, p
+			}
+		case *ssa.DebugRef:
+		case ssa.CallInstruction:
+			return "address of shared element handed to " + shortName(core.CalleeName(y.Common())), y.Pos()
+		default:
+			return "address of shared element escapes", r.Pos()
+		}
+	}
+	return "", token.NoPos
 }
